@@ -25,14 +25,24 @@ where
 {
     fn eval(&self, args: &mut State) -> Result<T, Error> {
         let mut clone = args.clone();
+        #[cfg(bpaf_verif)]
+        crate::verif::evx("fork", args, "\"op\":\"fallback\"");
         match self.inner.eval(&mut clone) {
             Ok(ok) => {
                 std::mem::swap(args, &mut clone);
+                #[cfg(bpaf_verif)]
+                crate::verif::evx("commit", args, "\"op\":\"fallback\",\"res\":\"some\"");
                 Ok(ok)
             }
             Err(Error(e)) => {
                 #[cfg(feature = "autocomplete")]
                 args.swap_comps(&mut clone);
+                #[cfg(bpaf_verif)]
+                crate::verif::evx(
+                    if e.can_catch() { "rollback" } else { "fail" },
+                    args,
+                    "\"op\":\"fallback\"",
+                );
                 if e.can_catch() {
                     match (self.fallback)() {
                         Ok(ok) => Ok(ok),
@@ -278,6 +288,8 @@ impl<T> Parser<T> for ParseOrElse<T> {
         // if one succeeds - pick that, forget the remaining one unless we are doing completion
         let mut args_a = args.clone();
         let mut args_b = args.clone();
+        #[cfg(bpaf_verif)]
+        crate::verif::ev("or_fork", args);
 
         // run both parsers, expand Result<T, Error> into Option<T> + Option<Error>
         // so that code that does a bunch of comparing logic can be shared across
@@ -324,6 +336,14 @@ fn this_or_that_picks_first(
 
     #[cfg(feature = "autocomplete")] mut comp_stash: Vec<crate::complete_gen::Comp>,
 ) -> Result<bool, Error> {
+    #[cfg(bpaf_verif)]
+    let verif_branches = format!(
+        "\"a_ok\":{},\"b_ok\":{},\"a\":{},\"b\":{}",
+        err_a.is_none(),
+        err_b.is_none(),
+        crate::verif::obj(args_a),
+        crate::verif::obj(args_b)
+    );
     // if higher depth parser succeeds - it takes a priority
     // completion from different depths should never mix either
     match Ord::cmp(&args_a.depth(), &args_b.depth()) {
@@ -333,6 +353,8 @@ fn this_or_that_picks_first(
             if let Some(comp) = args.comp_mut() {
                 comp.extend_comps(comp_stash);
             }
+            #[cfg(bpaf_verif)]
+            crate::verif::evx("or_pick", args, &format!("{},\"pick\":\"b\",\"by\":\"depth\"", verif_branches));
             return match err_b {
                 Some(err) => Err(err),
                 None => Ok(false),
@@ -345,6 +367,8 @@ fn this_or_that_picks_first(
             if let Some(comp) = args.comp_mut() {
                 comp.extend_comps(comp_stash);
             }
+            #[cfg(bpaf_verif)]
+            crate::verif::evx("or_pick", args, &format!("{},\"pick\":\"a\",\"by\":\"depth\"", verif_branches));
             return match err_a {
                 Some(err) => Err(err),
                 None => Ok(true),
@@ -441,6 +465,20 @@ fn this_or_that_picks_first(
         comp.extend_comps(comp_stash);
     }
 
+    #[cfg(bpaf_verif)]
+    crate::verif::evx(
+        "or_pick",
+        args,
+        &format!(
+            "{},\"pick\":\"{}\",\"by\":\"ledger\"",
+            verif_branches,
+            match &res {
+                Ok((true, _)) => "a",
+                Ok((false, _)) => "b",
+                Err(_) => "none",
+            }
+        ),
+    );
     Ok(res?.0)
 }
 
@@ -488,14 +526,24 @@ where
 {
     fn eval(&self, args: &mut State) -> Result<T, Error> {
         let mut clone = args.clone();
+        #[cfg(bpaf_verif)]
+        crate::verif::evx("fork", args, "\"op\":\"fallback\"");
         match self.inner.eval(&mut clone) {
             Ok(ok) => {
                 std::mem::swap(args, &mut clone);
+                #[cfg(bpaf_verif)]
+                crate::verif::evx("commit", args, "\"op\":\"fallback\",\"res\":\"some\"");
                 Ok(ok)
             }
             Err(Error(e)) => {
                 #[cfg(feature = "autocomplete")]
                 args.swap_comps(&mut clone);
+                #[cfg(bpaf_verif)]
+                crate::verif::evx(
+                    if e.can_catch() { "rollback" } else { "fail" },
+                    args,
+                    "\"op\":\"fallback\"",
+                );
                 if e.can_catch() {
                     Ok(self.value.clone())
                 } else {
@@ -794,13 +842,19 @@ where
     P: Parser<T>,
 {
     let mut orig_args = args.clone();
+    #[cfg(bpaf_verif)]
+    crate::verif::evx("fork", args, "\"op\":\"option\"");
     match parser.eval(args) {
         // we keep including values for as long as we consume values from the argument
         // list or at least one value
         Ok(val) => Ok(if args.len() < *len {
+            #[cfg(bpaf_verif)]
+            crate::verif::evx("commit", args, "\"op\":\"option\",\"res\":\"some\"");
             *len = args.len();
             Some(val)
         } else {
+            #[cfg(bpaf_verif)]
+            crate::verif::evx("commit", args, "\"op\":\"option\",\"res\":\"none\"");
             None
         }),
         Err(Error(err)) => {
@@ -841,8 +895,12 @@ where
                 if orig_args.comp_mut().is_some() {
                     args.swap_comps(&mut orig_args);
                 }
+                #[cfg(bpaf_verif)]
+                crate::verif::evx("rollback", args, "\"op\":\"option\"");
                 Ok(None)
             } else {
+                #[cfg(bpaf_verif)]
+                crate::verif::evx("fail", args, "\"op\":\"option\"");
                 Err(Error(err))
             }
         }
@@ -1146,6 +1204,8 @@ where
 {
     fn eval(&self, args: &mut State) -> Result<T, Error> {
         let original_scope = args.scope();
+        #[cfg(bpaf_verif)]
+        crate::verif::ev("adj_enter", args);
 
         let first_item;
         let inner_meta = self.inner.meta();
@@ -1191,6 +1251,8 @@ where
             }
 
             this_arg.set_scope(start..original_scope.end);
+            #[cfg(bpaf_verif)]
+            crate::verif::evx("adj_try", &this_arg, &format!("\"start\":{}", start));
             let before = this_arg.len();
 
             // values consumed by adjacent must be actually adjacent - if a scope contains
@@ -1209,6 +1271,8 @@ where
                         } else {
                             std::mem::swap(args, &mut this_arg);
                             args.set_scope(original_scope);
+                            #[cfg(bpaf_verif)]
+                            crate::verif::evx("adj_accept", args, &format!("\"start\":{}", start));
                             return Ok(res);
                         }
                     }
@@ -1229,6 +1293,8 @@ where
         // best_args was narrowed down to a block being parsed, outer parser should keep seeing
         // everything it was seeing before, including `--help` around a block that failed to parse
         args.set_scope(original_scope);
+        #[cfg(bpaf_verif)]
+        crate::verif::ev("adj_fail", args);
         Err(Error(best_error))
     }
 
